@@ -41,20 +41,16 @@ Section Lists.
   Lemma l_set_nat_beyond : forall l n (x : A), length l <= n -> l_set_nat l n x = l.
   Proof. induction l; intros [|n] x H; simpl in *; try reflexivity; try lia. rewrite IHl; [reflexivity | lia]. Qed.
 
-  (* in range: replaced; at or beyond the end: ignored *)
-  Lemma list_set_refines : forall l i x, (0 <= i)%Z ->
+  (* in range: replaced; out of range (beyond the end, or negative): ignored *)
+  Lemma list_set_refines : forall l i x,
     rt_list_set (rep_list l) i (emb x) = Ok (rep_list (l_set l i x)).
   Proof.
-    intros l i x Hi. unfold rep_list, rt_list_set, l_set. rewrite map_length.
-    destruct (Z.ltb_spec i 0); [lia|]. destruct (Z.leb_spec 0 i); [|lia].
+    intros l i x. unfold rep_list, rt_list_set, l_set. rewrite map_length.
+    destruct (Z.ltb_spec i 0); destruct (Z.leb_spec 0 i); try lia; [reflexivity|].
     destruct (Z.ltb_spec i (Z.of_nat (length l))).
     - rewrite replace_nth_map. reflexivity.
     - rewrite l_set_nat_beyond; [reflexivity | lia].
   Qed.
-
-  (* a negative index leaves the model (in Lua it plants the key i+1 <= 0 in the table) *)
-  Lemma list_set_negative : forall l i x, (i < 0)%Z -> rt_list_set (rep_list l) i x = Unsup.
-  Proof. intros l i x Hi. unfold rep_list, rt_list_set. destruct (Z.ltb_spec i 0); [reflexivity | lia]. Qed.
 
   Lemma removelast_map : forall l : list A, removelast (map emb l) = map emb (removelast l).
   Proof. induction l as [|x [|y l] IH]; simpl in *; try reflexivity. rewrite IH. reflexivity. Qed.
@@ -212,7 +208,7 @@ Section ListHistory.
   | rel_prepend : forall x, op_rel (LPrepend x) (RPrepend (emb x))
   | rel_pop : op_rel LPop RPop
   | rel_get : forall i, op_rel (LGet i) (RGet i)
-  | rel_set : forall i x, (0 <= i)%Z -> op_rel (LSet i x) (RSet i (emb x))
+  | rel_set : forall i x, op_rel (LSet i x) (RSet i (emb x))
   | rel_len : op_rel LLen RLen
   | rel_map : forall f fv, (forall a, fv (emb a) = emb (f a)) -> op_rel (LMap f) (RMap fv)
   | rel_filter : forall p pv, (forall a, pv (emb a) = p a) -> op_rel (LFilter p) (RFilter pv)
@@ -238,7 +234,7 @@ Section ListHistory.
     - rewrite list_prepend_refines. reflexivity.
     - rewrite list_pop_refines. reflexivity.
     - rewrite list_get_refines. reflexivity.
-    - rewrite list_set_refines by assumption. reflexivity.
+    - rewrite list_set_refines. reflexivity.
     - rewrite list_len_refines. reflexivity.
     - rewrite (list_map_refines A emb A emb fv f) by assumption. reflexivity.
     - rewrite (list_filter_refines A emb pv p) by assumption. reflexivity.
@@ -345,21 +341,11 @@ Section Dicts.
     destruct (m_lookup keqb k m); reflexivity.
   Qed.
 
-  (* dict_remove addresses the table with the RAW key: right for string keys ... *)
-  Lemma dict_remove_refines_str : forall m k, (exists s, embK k = VStr s) ->
+  Lemma dict_remove_refines : forall m k,
     rt_dict_remove (rep_dict m) (embK k) = Ok (rep_dict (m_remove keqb k m)).
   Proof.
-    intros m k [s E]. unfold rep_dict, rt_dict_remove. rewrite E.
-    replace s with (ts K embK k) by (unfold ts; rewrite E; reflexivity).
+    intros m k. unfold rep_dict, rt_dict_remove. change (rt_tostring (embK k)) with (ts K embK k).
     rewrite (tbl_del_keyed K V _ embK keqb keqb_eq key_inj dict_h). reflexivity.
-  Qed.
-
-  (* ... and a no-op for every other key type *)
-  Lemma dict_remove_nonstr_noop : forall m k, (forall s, embK k <> VStr s) ->
-    rt_dict_remove (rep_dict m) (embK k) = Ok (rep_dict m).
-  Proof.
-    intros m k H. unfold rep_dict, rt_dict_remove. destruct (embK k); try reflexivity.
-    exfalso. exact (H s eq_refl).
   Qed.
 
   Lemma dict_from_list_refines : forall l,
@@ -414,25 +400,19 @@ Section Dicts.
     | DOBool b => VBool b
     end.
 
-  Definition is_remove (op : dop) : bool := match op with DRemove _ => true | _ => false end.
-
   Theorem dict_history_refines : forall ops m,
-    (forall k, exists s, embK k = VStr s) \/ existsb is_remove ops = false ->
     rt_drun ops (rep_dict m) = Ok (rep_dict (fst (d_run ops m)), map emb_dobs (snd (d_run ops m))).
   Proof.
-    induction ops as [|op ops IH]; intros m H; [reflexivity|].
-    assert (H' : (forall k, exists s, embK k = VStr s) \/ existsb is_remove ops = false).
-    { destruct H as [H|H]; [left; exact H | right; simpl in H; apply orb_false_iff in H; tauto]. }
+    induction ops as [|op ops IH]; intros m; [reflexivity|].
     assert (S : rt_dstep op (rep_dict m) = Ok (rep_dict (fst (d_step op m)), emb_dobs (snd (d_step op m)))).
     { destruct op; cbn [rt_dstep d_step fst snd emb_dobs].
       - rewrite dict_update_refines. reflexivity.
-      - destruct H as [H|H]; [|simpl in H; discriminate].
-        rewrite dict_remove_refines_str by apply H. reflexivity.
+      - rewrite dict_remove_refines. reflexivity.
       - rewrite dict_get_refines. reflexivity.
       - rewrite dict_len_refines. reflexivity.
       - rewrite dict_contains_key_refines. reflexivity. }
     cbn [rt_drun d_run]. rewrite S. cbn [rbind fst snd].
-    destruct (d_step op m) as [m' o]. cbn [fst snd]. rewrite (IH m' H').
+    destruct (d_step op m) as [m' o]. cbn [fst snd]. rewrite (IH m').
     destruct (d_run ops m') as [m'' os]. reflexivity.
   Qed.
 End Dicts.
@@ -644,25 +624,18 @@ Proof. apply String.eqb_eq. Qed.
 Lemma z_eqb_eq : forall a b : Z, Z.eqb a b = true <-> a = b.
 Proof. apply Z.eqb_eq. Qed.
 
-(* the instances: every history on dicts/sets keyed by strings, and (without remove, for dicts) by ints *)
+(* the instances: every history on dicts/sets keyed by strings or by ints *)
 Theorem dict_history_str_keys : forall (V : Type) (embV : V -> value) ops m,
   rt_drun string V VStr embV ops (rep_dict string V VStr embV m) =
   Ok (rep_dict string V VStr embV (fst (d_run string V String.eqb ops m)),
       map (emb_dobs V embV) (snd (d_run string V String.eqb ops m))).
-Proof.
-  intros. apply (dict_history_refines string V VStr embV String.eqb string_eqb_eq key_inj_str).
-  left. intros k. exists k. reflexivity.
-Qed.
+Proof. intros. apply (dict_history_refines string V VStr embV String.eqb string_eqb_eq key_inj_str). Qed.
 
 Theorem dict_history_int_keys : forall (V : Type) (embV : V -> value) ops m,
-  existsb (is_remove Z V) ops = false ->
   rt_drun Z V vint embV ops (rep_dict Z V vint embV m) =
   Ok (rep_dict Z V vint embV (fst (d_run Z V Z.eqb ops m)),
       map (emb_dobs V embV) (snd (d_run Z V Z.eqb ops m))).
-Proof.
-  intros. apply (dict_history_refines Z V vint embV Z.eqb z_eqb_eq key_inj_int).
-  right. assumption.
-Qed.
+Proof. intros. apply (dict_history_refines Z V vint embV Z.eqb z_eqb_eq key_inj_int). Qed.
 
 Theorem set_history_str_keys : forall ops s,
   rt_srun string VStr ops (rep_set string VStr s) =
@@ -673,18 +646,6 @@ Theorem set_history_int_keys : forall ops s,
   rt_srun Z vint ops (rep_set Z vint s) =
   Ok (rep_set Z vint (fst (s_run Z Z.eqb ops s)), map emb_sobs (snd (s_run Z Z.eqb ops s))).
 Proof. intros. apply (set_history_refines Z vint Z.eqb z_eqb_eq key_inj_int). Qed.
-
-(* dict_remove with a key that is not a string removes nothing *)
-Theorem dict_remove_int_refuted : exists d k v d' d'',
-  rt_dict_update rt_dict_new k v = Ok d /\ rt_dict_remove d k = Ok d' /\ rt_len d' = Ok (vint 1) /\
-  rt_dict_get d' k = Ok (mk_just v) /\
-  (* while the plain map is empty afterwards *)
-  m_remove Z.eqb 1%Z (m_insert Z.eqb 1%Z 7%Z []) = [] /\ d'' = d'.
-Proof.
-  exists (VDict [("1"%string, (vint 1, vint 7))]), (vint 1), (vint 7). eexists. eexists.
-  split; [vm_compute; reflexivity|]. split; [vm_compute; reflexivity|].
-  split; [vm_compute; reflexivity|]. split; [vm_compute; reflexivity|]. split; reflexivity.
-Qed.
 
 (* lists of arbitrary run-time values: contains is membership up to == (structural equality by eq_struct) *)
 Theorem list_history_values : forall ops rops l, Forall2 (op_rel value (fun v => v)) ops rops ->
@@ -720,40 +681,39 @@ Definition key_inj_int_tuple_statement : Prop :=
 (* ------------------------------------------------------------------------------------------------ *)
 (* values made by the library vs the same values written in source                                   *)
 
-(* FULL-STRENGTH STATEMENT (property C18, second sentence), FALSE: a Maybe returned by the library is
-   == to the Maybe of the same content written in the program *)
-Definition lib_maybe_eq_statement : Prop :=
-  forall (l : list value) (i : Z) (r : value), rt_list_get (VList l) i = Ok r ->
-  rt_eq r (match l_get l i with Some x => mk_just x | None => src_none end) = true.
+(* Since /repo c4844e5 the library builds the absent case as __VARIANT({"None", __NIL}), exactly what
+   `Maybe.None` compiles to. *)
+Theorem lib_none_is_src_none : lib_none = src_none.
+Proof. reflexivity. Qed.
 
-(* the absent case: list_get / list_find / list_pop / dict_get / as_char build __VARIANT({"None", nil}),
-   `Maybe.None` compiles to __VARIANT{ "None", __NIL }, and nil == __NIL is false *)
-Theorem lib_none_eq_refuted :
+(* a Maybe made by the library has the Maybe type and is == to the same Maybe written in the program *)
+Lemma rep_maybe_typed : forall t (o : option value), (forall x, o = Some x -> vty t x) ->
+  vty (TMaybe t) (rep_maybe (fun v => v) o) /\
+  rt_eq (rep_maybe (fun v => v) o) (match o with Some x => mk_just x | None => src_none end) = true.
+Proof.
+  intros t [x|] H; simpl.
+  - split; [apply H; reflexivity|]. apply (eq_refl_rt t x). apply H. reflexivity.
+  - split; reflexivity.
+Qed.
+
+Theorem lib_maybe_eq : forall t (l : list value) (i : Z) (r : value), Forall (vty t) l ->
+  rt_list_get (VList l) i = Ok r ->
+  vty (TMaybe t) r /\ rt_eq r (match l_get l i with Some x => mk_just x | None => src_none end) = true.
+Proof.
+  intros t l i r Hl Hg. pose proof (list_get_refines value (fun v => v) l i) as R.
+  unfold rep_list in R. rewrite map_id in R. rewrite R in Hg. inversion Hg; subst r.
+  apply rep_maybe_typed. intros x Hx. unfold l_get in Hx. destruct (0 <=? i)%Z; [|discriminate].
+  apply nth_error_In in Hx. rewrite Forall_forall in Hl. auto.
+Qed.
+
+(* the same for dict_get, list_find, list_pop, list_last: they all answer with rep_maybe *)
+Theorem lib_none_eq :
   rt_list_get (VList []) 0 = Ok lib_none /\ rt_list_pop (VList []) = Ok (VList [], lib_none) /\
   rt_list_find (fun _ => true) (VList []) = Ok lib_none /\ rt_dict_get rt_dict_new (vint 0) = Ok lib_none /\
-  rt_eq lib_none src_none = false /\ rt_eq src_none lib_none = false /\ rt_neq lib_none src_none = true /\
-  vty (TMaybe TInt) src_none /\ ~ vty (TMaybe TInt) lib_none.
-Proof.
-  repeat split; try reflexivity. simpl. discriminate.
-Qed.
+  rt_eq lib_none src_none = true /\ rt_neq lib_none src_none = false /\ vty (TMaybe TInt) lib_none.
+Proof. repeat split; reflexivity. Qed.
 
-Theorem lib_maybe_eq_false : ~ lib_maybe_eq_statement.
-Proof. intros H. specialize (H [] 0%Z lib_none eq_refl). discriminate H. Qed.
-
-(* the present case is fine *)
-Theorem lib_just_eq : forall t (l : list value) i x, Forall (vty t) l -> l_get l i = Some x ->
-  rt_list_get (VList l) i = Ok (mk_just x) /\ rt_eq (mk_just x) (mk_just x) = true /\ vty (TMaybe t) (mk_just x).
-Proof.
-  intros t l i x Hl Hg. pose proof (list_get_refines value (fun v => v) l i) as R.
-  unfold rep_list in R. rewrite map_id, Hg in R. split; [exact R|].
-  assert (Tx : vty t x).
-  { unfold l_get in Hg. destruct (0 <=? i)%Z; [|discriminate]. apply nth_error_In in Hg.
-    rewrite Forall_forall in Hl. auto. }
-  split; [|exact Tx]. unfold mk_just. cbn [rt_eq]. rewrite String.eqb_refl. apply (eq_refl_rt t x Tx).
-Qed.
-
-(* and everything that does not use == cannot tell the two Nones apart: case analysis (isJust, isNone,
-   orDefault, map go through __INDEX, which turns a nil payload into __NIL) and printing *)
+(* case analysis (isJust, isNone, orDefault, map go through __INDEX) and printing agree as well *)
 Theorem lib_none_case_ok :
   rt_is_just lib_none = rt_is_just src_none /\ rt_is_none lib_none = rt_is_none src_none /\
   (forall d, rt_or_default lib_none d = rt_or_default src_none d) /\
